@@ -1,0 +1,1 @@
+//! Verification hooks: stream (see verif/mod.rs).
